@@ -210,7 +210,8 @@ def known_findings():
 
 def open_finding(prop, dev):
     for k in known_findings():
-        if k.get("property") == prop and k.get("status") == "open" and k.get("deviation") == dev:
+        # an extension's finding (property "CXn") is the same finding in whatever host its stage is spliced into
+        if (k.get("property") == prop or str(k.get("property", "")).startswith("CX")) and k.get("status") == "open" and k.get("deviation") == dev:
             return k
     return None
 
